@@ -38,7 +38,7 @@ MANIFEST = {
 
 
 def plan(tier):
-    t = 400 if tier == "quick" else 3000
+    t = 400 if tier == "quick" else 900
     wparts = ["0:0,1:0", "0:1,1:0"] + [f"0:{d},1:{n},2:{k}" for d in range(2) for n in (1, 2) for k in range(6)]
     return [
         K("k_path_match", "kjobs.c11", "path_matching", "path/class matching vs segment suffix (shared with C11)"),
